@@ -22,7 +22,7 @@ def _key_for_shape(case):
     if case.get("multi_record_alts") or _src_multi_record_alts(prog):
         return "shape-mismatch:pattern-translator:multi-record-alts"
     if case.get("annotated_record_order"):
-        return "shape-mismatch:annotated-record-field-order"
+        return "shape-mismatch:permuted-record-fields"
     if "imports-io-module" in tags and "run_io=1" in case.get("settings", ""):
         return "shape-mismatch:imported-io-module:run_io"
     h = common.hashlib.sha1((prog.get("main", "") + case.get("value", "")).encode()).hexdigest()[:8]
